@@ -19,6 +19,7 @@ Variable ic : nat.                  (* Settings::internalCapacity *)
 Variable growOnReserve : bool.      (* Settings::growOnReserve *)
 Variable nothrowMove : bool.        (* ItemTraits::isNothrowMoveConstructible *)
 Variable nothrowReloc : bool.       (* ItemTraits::isNothrowRelocatable *)
+Variable canRealloc : bool.         (* MemManagerProxy::canReallocate && ItemTraits::isTriviallyRelocatable *)
 
 Notation arr := (arr V).
 Notation arg := (arg V).
@@ -54,13 +55,16 @@ Definition alias_at_or_after (index initCount : nat) (itemIndex : option nat) : 
   match itemIndex with Some p => (index <=? p) && (p <? initCount) | None => false end.
 
 (* move-construct a temporary from the argument (the source is left moved-from) *)
-Definition take_arg (b : arr) (x : arg) : res (V * arr) :=
+Definition take_arg (b : arr) (x : arg) : res (option V * arr) :=
   match x with
-  | ArgVal v => Ok (v, b)
-  | ArgRef p => v <- live_at V (cells b) p ;; Ok (v, upd V b p (mcell (after_move v)))
+  | ArgVal v => Ok (Some v, b)
+  | ArgRef p => o <- obj_at V (cells b) p ;; Ok (o, upd V b p (src_after V after_move o))
   end.
+(* the ArrayItemHandler temporary as a source: an object outside the array (copied count times, or moved once) *)
+Definition source_temp (o : option V) : source V :=
+  mkSource V (fun _ dst s => assign_val V s o dst) (fun _ s => add_back_ctor V s o).
 (* `item` used after the buffer was replaced *)
-Definition stale_arg (x : arg) : res V := match x with ArgVal v => Ok v | ArgRef _ => Err EDangling end.
+Definition stale_arg (x : arg) : res (option V) := match x with ArgVal v => Ok (Some v) | ArgRef _ => Err EDangling end.
 
 Definition with_body (a : array) (r : res arr) : res array := b <- r ;; Ok (mkArray b (allocs a)).
 
@@ -73,7 +77,7 @@ Definition array_insert (a : array) (index count : nat) (x : arg) : res array :=
   if grow || alias_at_or_after index initCount itemIndex then
     v <- read_arg V (body a) x ;;                                  (* ItemHandler itemHandler(memManager, Creator<const Item&>(item)) *)
     a1 <- (if grow then pv_grow a newCount cause_add else Ok a) ;; (* if (grow) pvGrow(newCount, add) *)
-    with_body a1 (insert_nogrow_copies V self_move after_move true (body a1) index count (ArgVal v))
+    with_body a1 (insert_nogrow_gen V self_move after_move true (source_temp v) (body a1) index count)
   else
     with_body a (insert_nogrow_copies V self_move after_move true (body a) index count x).
 
@@ -88,7 +92,7 @@ Definition array_insert_rvalue (a : array) (index : nat) (x : arg) : res array :
     let (v, b0) := vb in
     let a0 := mkArray b0 (allocs a) in
     a1 <- (if cap (body a0) <? cnt (body a0) + 1 then pv_grow a0 (cnt (body a0) + 1) cause_add else Ok a0) ;;
-    with_body a1 (insert_nogrow_rvalue V self_move after_move true (body a1) index (ArgVal v))
+    with_body a1 (insert_nogrow_gen V self_move after_move true (source_temp v) (body a1) index 1)
   else
     with_body a (insert_nogrow_rvalue V self_move after_move true (body a) index x).
 
@@ -166,7 +170,11 @@ Definition array_shrink (a : array) (capacity : nat) : res array :=
   if (initCapacity <=? capacity) || (initCapacity =? ic) then Ok a else
   let count := cnt (body a) in
   let capacity := if capacity <? count then count else capacity in
-  if ic <? capacity then Ok (mkArray (mkArr (firstn capacity (cells (body a))) count) (S (allocs a)))
+  if ic <? capacity then
+    (* Data::Reallocate(capacity, capacity) (MemManagerProxy::Reallocate returns the same block when the size is
+       unchanged) or Data::Reset(capacity): a new block even when the size is unchanged *)
+    Ok (mkArray (mkArr (firstn capacity (cells (body a))) count)
+                (if canRealloc && (capacity =? initCapacity) then allocs a else S (allocs a)))
   else Ok (mkArray (mkArr (firstn ic (cells (body a))) count) (allocs a)).      (* back to the internal buffer *)
 
 Definition array_remove (a : array) (index count : nat) : res array :=
@@ -174,7 +182,15 @@ Definition array_remove (a : array) (index count : nat) : res array :=
 Definition array_remove_filter (a : array) (p : V -> bool) : res array :=
   r <- remove_filter V self_move after_move p (body a) ;; Ok (mkArray (fst r) (allocs a)).
 (* array[i] = v (plain assignment of a fresh value; used by the scripts to refill a moved-from slot) *)
-Definition array_set (a : array) (i : nat) (v : V) : res array := with_body a (assign_val V (body a) v i).
+Definition array_set (a : array) (i : nat) (v : V) : res array := with_body a (assign_val V (body a) (Some v) i).
+
+(* stdish::vector::assign(count, value):  mArray = Array(count, value, memManager)  -- the new array is built
+   from `value` while the old one is intact, then move-assigned *)
+Definition array_assign (a : array) (count : nat) (x : arg) : res array :=
+  v <- read_arg V (body a) x ;;
+  let newCap := if ic <? count then count else ic in
+  Ok (mkArray (mkArr (repeat (mcell v) count ++ raws (newCap - count)) count)
+              (if ic <? count then S (allocs a) else allocs a)).
 
 Definition array_empty : array := mkArray (mkArr (raws ic) 0) 0.
 
@@ -183,7 +199,7 @@ Inductive op :=
 | OAddBack (x : arg) | OAddBackR (x : arg)
 | OInsert (index count : nat) (x : arg) | OInsertR (index : nat) (x : arg) | OInsertRange (index : nat) (vs : list V)
 | ORemove (index count : nat) | ORemoveFilter (p : V -> bool)
-| OSetCount (n : nat) (x : arg) | OReserve (n : nat) | OShrink (n : nat) | OSet (i : nat) (v : V).
+| OSetCount (n : nat) (x : arg) | OAssign (n : nat) (x : arg) | OReserve (n : nat) | OShrink (n : nat) | OSet (i : nat) (v : V).
 
 Definition run_op (a : array) (o : op) : res array :=
   match o with
@@ -195,6 +211,7 @@ Definition run_op (a : array) (o : op) : res array :=
   | ORemove i c => array_remove a i c
   | ORemoveFilter p => array_remove_filter a p
   | OSetCount n x => array_set_count a n x
+  | OAssign n x => array_assign a n x
   | OReserve n => array_reserve a n
   | OShrink n => array_shrink a n
   | OSet i v => array_set a i v
